@@ -186,6 +186,52 @@ Definition unbytes_fin (f : fin) : fin :=
   end.
 
 (* ------------------------------------------------------------------ *)
+(* "empty slices to NULL": how many times the word NULL has to stand in the text               *)
+Fixpoint count_sub (p s : la) : nat :=
+  match s with
+  | [] => O
+  | _ :: r => (if prefix p s then 1 else 0) + count_sub p r
+  end.
+Definition nulls_in (s : string) : nat := count_sub (s2l "NULL") (s2l s).
+
+(* an empty slice written as a value (not right after '(' of a template, where it binds one NULL
+   value instead) renders (NULL); Eq / Neq of nil render IS [NOT] NULL; IN without values renders
+   IN (NULL) or, negated, IS NOT NULL; literal NULLs of templates and identifiers are counted as they are *)
+Fixpoint null_words (v : val) : nat :=
+  let sum := fun l => list_sum (map null_words l) in
+  let tmpl_args := fun (wop : bool) (sql : string) (vars : list val) =>
+    list_sum (zipw (fun (f : bool) (n : nat * bool) => if (f || wop) && snd n then 0 else fst n)
+                   (paren_flags (s2l sql) false)
+                   (map (fun x => (null_words x, match x with VList _ [] => true | _ => false end)) vars)) in
+  match v with
+  | VList _ [] => 1
+  | VList _ l => sum l
+  | VGormValuer isnil x => if isnil then 0 else null_words x
+  | VCol t n a _ => nulls_in t + nulls_in n + nulls_in a
+  | VTable n a _ => nulls_in n + nulls_in a
+  | VText s => nulls_in s
+  | VExpr wop sql vars => nulls_in sql + tmpl_args wop sql vars
+  | VNamedExpr sql vars =>
+    nulls_in sql + if contains_c "@" (s2l sql) then 0 else tmpl_args false sql vars
+  | VCmp o c x =>
+    match c with VQStr s => nulls_in s | _ => null_words c end +
+    match x with
+    | VList _ [] => 1
+    | _ => match o with
+           | OEq | ONeq => if eq_nil x then 1 else null_words x
+           | _ => null_words x
+           end
+    end
+  | VIn c vs =>
+    match c with VQStr s => nulls_in s | _ => null_words c end +
+    match vs with [] => 1 | _ => sum vs end
+  | VAnd l | VOr l | VNot l | VWhere l => sum l
+  | VSeq sp l => sum l + nulls_in sp * pred (length l)
+  | VSubN _ q _ => null_words q
+  | _ => 0
+  end.
+
+(* ------------------------------------------------------------------ *)
 (* the property's domain, on the clause tree                            *)
 
 (* text that is not an argument value (identifiers, keywords, separators): no placeholder byte of
